@@ -1,6 +1,9 @@
 // memory_arena<.., cached|uncached> and the block sources driven directly (C05: every block returned exactly once, LIFO, cache reused
 // before new blocks; C12: moves, move assignments and swaps of arenas and block sources).
 #include <foonathan/memory/memory_arena.hpp>
+#include <fcntl.h>
+#include <unistd.h>
+
 #include <foonathan/memory/static_allocator.hpp>
 #include <foonathan/memory/virtual_memory.hpp>
 
@@ -178,6 +181,20 @@ namespace
             });
     }
 
+    // is the byte at p readable? (asks the kernel instead of touching it: write() fails with EFAULT for inaccessible memory)
+    inline bool readable(const void* p)
+    {
+        // (a pipe: the kernel really copies the byte; /dev/null would not look at the buffer)
+        static int fds[2] = {-1, -1};
+        if (fds[0] < 0 && ::pipe(fds) != 0)
+            return true;
+        bool ok = ::write(fds[1], p, 1) == 1;
+        char c;
+        if (ok && ::read(fds[0], &c, 1) != 1)
+            return true;
+        return ok;
+    }
+
     // the block sources themselves: LIFO use, moves, move assignment between sources with different parameters, exhaustion
     template <class Make>
     void source_kind(const args& a, const char* name, Make make)
@@ -233,8 +250,20 @@ namespace
                         for (std::size_t i = 0; i < top.size; i += 61)
                             if (static_cast<unsigned char*>(top.memory)[i] != (unsigned char)st.size())
                                 viol("C01", "C01/" + kind + "/pattern-corrupted", "an outstanding block was overwritten");
+                        auto released = top;
                         b->deallocate_block(top);
                         st.pop_back();
+                        if (kind == "virtual_block_allocator")
+                        {
+                            // giving a block back to the virtual memory source means decommitting exactly its pages: the block is no longer
+                            // accessible, every outstanding block still is
+                            if (readable(released.memory) || readable(static_cast<char*>(released.memory) + released.size - 1))
+                                viol("C05", "C05/" + kind + "/released-block-still-committed", "a block given back to the virtual memory source is still accessible");
+                            for (auto& o : st)
+                                if (!readable(o.memory) || !readable(static_cast<char*>(o.memory) + o.size - 1))
+                                    viol("C05", "C05/" + kind + "/outstanding-block-decommitted", "giving back one block made an outstanding block inaccessible");
+                            count("page_state_checks");
+                        }
                     }
                     else if (x < 90)
                     {
